@@ -71,10 +71,7 @@ impl<'a> AnfCk<'a> {
                         self.err(format!("use of {} at type {:?} but its binder has type {:?}", name, ty, bt));
                     }
                 } else if let Some(gt) = self.globals.get(name) {
-                    // calls through a closure variable name the lifted `apply` function but carry the
-                    // closure's own type: a representation convention, not a use at a wrong type
-                    let closure_apply = name.starts_with("inherent#closure_env_");
-                    if has_residue(gt).is_none() && !ty_eq(gt, ty) && !closure_apply {
+                    if has_residue(gt).is_none() && !ty_eq(gt, ty) {
                         self.err(format!("use of global {} at type {:?} but it is declared {:?}", name, ty, gt));
                     }
                 } else if !POLY_BUILTINS.contains(&name.as_str()) && !self.globals.contains_key(name) {
